@@ -74,6 +74,10 @@ type buildCtx struct {
 	redactables []string       // redactable operands met while building a twin, by placeholder id
 	twinFail    string         // set when a descriptor has no faithful twin (case is skipped)
 	counters    []counterState // state of "panic the first k times" payloads
+	// memo, when non-nil, makes a descriptor node build to the same Go value
+	// every time (C02: nodes shared by the two instantiations are public, and
+	// addresses printed from them must not differ between the runs).
+	memo map[*D]interface{}
 }
 
 type counterState struct {
@@ -140,6 +144,18 @@ func (bc *buildCtx) panicSpecOf(d *D) panicSpec {
 
 // real builds the value described by d.
 func (bc *buildCtx) real(d *D) interface{} {
+	if bc.memo == nil {
+		return bc.realImpl(d)
+	}
+	if v, ok := bc.memo[d]; ok {
+		return v
+	}
+	v := bc.realImpl(d)
+	bc.memo[d] = v
+	return v
+}
+
+func (bc *buildCtx) realImpl(d *D) interface{} {
 	if v := intOfKind(d.K, d.N); v != nil {
 		return v
 	}
@@ -254,9 +270,9 @@ func (bc *buildCtx) real(d *D) interface{} {
 		b.Print(bc.redactableOf(d))
 		return b
 	case "SafeFmt":
-		return tSafeFmt{d.Sub, bc}
+		return tSafeFmt{d.Sub, func() *buildCtx { return bc }}
 	case "SafeFmtErr":
-		return tSafeFmtErr{tSafeFmt{d.Sub, bc}}
+		return tSafeFmtErr{tSafeFmt{d.Sub, func() *buildCtx { return bc }}}
 	case "SafeMsg":
 		return tSafeMsg{string(d.S)}
 	case "SVInt":
